@@ -188,3 +188,43 @@ fn step_remove() {
     kani::cover!(r.is_some() && t.verif_free() > 4, "removal");
     std::mem::forget(t);
 }
+
+
+/// retain with an arbitrary predicate (bit mask over the keys): keeps exactly the accepted
+/// elements, calls `drop` exactly once for each rejected one, preserves the invariant
+/// (this is the kernel of the unique tables' garbage collection). The table holds at most 4
+/// elements, i.e. the shrink path `reserve_rehash(0)` is part of the run whenever fewer than
+/// 4 elements remain.
+#[kani::proof]
+#[kani::unwind(18)]
+fn step_retain() {
+    let (mut t, p, h) = any_table();
+    let keep: u8 = kani::any();
+    let dropped = std::cell::Cell::new(0u8);
+    let twice = std::cell::Cell::new(false);
+    t.retain(
+        |x| keep & (1 << (*x & 7)) != 0,
+        |x| {
+            let b = 1u8 << (x & 7);
+            if dropped.get() & b != 0 {
+                twice.set(true);
+            }
+            dropped.set(dropped.get() | b);
+        },
+    );
+    assert!(!twice.get(), "C17,C05: retain drops every rejected element exactly once");
+    let w = any_key();
+    let was = present(&p, w);
+    let acc = keep & (1 << w) != 0;
+    assert!((dropped.get() & (1 << w) != 0) == (was && !acc), "C17,C05: exactly the rejected elements are dropped");
+    assert!(t.slots() == SLOTS || t.slots() == 0, "C17: a 16-slot table stays at the minimal capacity");
+    if t.slots() == SLOTS {
+        let p2 = parts_of(&t);
+        assert!(inv(&p2, t.len(), t.verif_free(), &h), "C17: representation invariant preserved by retain (incl. shrink/rehash)");
+        assert!(present(&p2, w) == (was && acc), "C17: retain keeps exactly the elements accepted by the predicate");
+    } else {
+        assert!(!(was && acc), "C17: an empty table after retain means nothing was accepted");
+    }
+    kani::cover!(t.len() >= 2 && dropped.get() != 0, "some kept, some dropped");
+    std::mem::forget(t);
+}
